@@ -16,9 +16,8 @@ _LagrangeHalfCPolynomialMul:
 	pushq	%r15
 
 	/* _LagrangeHalfCPolynomialMul(HCP* r, HCP* a, HCP* b) */
-	movq	8(%rdi), %rax /* rax: proc */
 	movq	$0,%rcx
-	movl	8(%rax), %ecx /* ecx: Ns2 */
+	movl	$512, %ecx /* ecx: Ns2 = N/2 with N = 1024 (not read through the proc pointer of r: it belongs to the thread that allocated r) */
 	movq	(%rdi), %r8  /* r8: base of rre */
 	movq	(%rsi), %r10 /* r10: base of are */
 	movq	(%rdx), %r12 /* r12: base of bre */
@@ -76,9 +75,8 @@ _LagrangeHalfCPolynomialAddMul:
 	pushq	%r15
 
 	/* _LagrangeHalfCPolynomialAddMul(HCP* r, HCP* a, HCP* b) */
-	movq	8(%rdi), %rax /* rax: proc */
 	movq	$0,%rcx
-	movl	8(%rax), %ecx /* ecx: Ns2 */
+	movl	$512, %ecx /* ecx: Ns2 = N/2 with N = 1024 (not read through the proc pointer of r: it belongs to the thread that allocated r) */
 	movq	(%rdi), %r8  /* r8: base of rre */
 	movq	(%rsi), %r10 /* r10: base of are */
 	movq	(%rdx), %r12 /* r12: base of bre */
@@ -135,9 +133,8 @@ _LagrangeHalfCPolynomialSubMul:
 	pushq	%r15
 
 	/* _LagrangeHalfCPolynomialSubMul(HCP* r, HCP* a, HCP* b) */
-	movq	8(%rdi), %rax /* rax: proc */
 	movq	$0,%rcx
-	movl	8(%rax), %ecx /* ecx: Ns2 */
+	movl	$512, %ecx /* ecx: Ns2 = N/2 with N = 1024 (not read through the proc pointer of r: it belongs to the thread that allocated r) */
 	movq	(%rdi), %r8  /* r8: base of rre */
 	movq	(%rsi), %r10 /* r10: base of are */
 	movq	(%rdx), %r12 /* r12: base of bre */
